@@ -20,12 +20,12 @@ func init() {
 		ID: "C14", Level: "model_checking",
 		Explanation: "the binary COPY row reader on the standard header followed by R arbitrary bytes (tuples, corrupt counts and lengths, trailer), cut into CopyData messages at solver-chosen split points; the reference decodes the unsplit stream; results must agree for every split",
 		Assumptions: P(pgStub,
-			"header concrete (flags 0, no extension) as every client sends; streams that end at a tuple boundary without the trailer are outside the claim (the format requires the trailer); no empty CopyData chunks; text columns (pgx TextCodec.DecodeValue executed from its own code)",
+			"header concrete (flags 0, no extension) as every client sends; streams that end at a tuple boundary without the trailer are outside the claim (the format requires the trailer); empty CopyData chunks included; text columns (pgx TextCodec.DecodeValue executed from its own code)",
 		),
 		Runs: []HarnessRun{
 			{Pkg: "wire", Entry: "VerifH14", What: "rows = reference rows for every split; bad field count / truncated field -> error, never a panic or a fabricated row; trailer -> EOF",
-				Quick: map[string]int{"R": 8, "SPLITS": 1, "COLS": 2}, Thorough: map[string]int{"R": 11, "SPLITS": 2, "COLS": 2},
-				Witnesses: []string{"row-decoded", "null-field", "bad-row", "trailer", "split-at-boundary", "split-inside-tuple"}},
+				Quick: map[string]int{"R": 8, "SPLITS": 2, "COLS": 2}, Thorough: map[string]int{"R": 11, "SPLITS": 2, "COLS": 2},
+				Witnesses: []string{"row-decoded", "null-field", "bad-row", "trailer", "split-at-boundary", "split-inside-tuple", "empty-chunk"}},
 		},
 	})
 }
